@@ -364,3 +364,43 @@ pub mod c06 {
         Ok(v.abs())
     }
 }
+
+pub mod c10 {
+    /// run-length style list whose element count lives in a separate field that `retain_non_zero` does not maintain
+    pub struct CompactVec {
+        pub inner: Vec<f64>,
+        pub len: usize,
+    }
+    impl CompactVec {
+        pub fn push(&mut self, v: f64) {
+            self.inner.push(v);
+            self.len += 1;
+        }
+        pub fn len(&self) -> usize {
+            self.len
+        }
+        pub fn retain_non_zero(&mut self) {
+            self.inner.retain(|v| *v != 0.0);
+        }
+        pub fn retain_and_sort(&mut self) {
+            self.retain_non_zero();
+            self.inner.sort_by(|a, b| b.total_cmp(a));
+        }
+        pub fn into_vec(self) -> Vec<f64> {
+            let mut out = Vec::with_capacity(self.len);
+            out.extend(self.inner);
+            out
+        }
+    }
+
+    pub fn len_after_retain(mut peaks: CompactVec) -> usize {
+        peaks.retain_and_sort();
+        peaks.len().min(10)
+    }
+
+    pub fn len_before_retain(mut peaks: CompactVec) -> usize {
+        let n = peaks.len();
+        peaks.retain_and_sort();
+        n + peaks.into_vec().len()
+    }
+}
